@@ -1119,6 +1119,30 @@ func (c *Ctx) inmemWaitRules(r *inmemRoles, w2, w3, w4, w5, w6 string) {
 					cm, isCmp := f.Cmp()
 					return isCmp && cm.Op == token.NEQ && (ir.LoadedField(cm.X) == r.recVersion || ir.LoadedField(cm.Y) == r.recVersion)
 				})
+				if !okG {
+					// per path: flags and pointers assigned together with the decision (`kw == nil` standing for "the
+					// version differed") select the alternatives
+					w, perr := (ir.PathQuery{Fn: fn, Target: func(x ssa.Instruction, val *ir.Valuation) bool {
+						if x != ssa.Instruction(ret) {
+							return false
+						}
+						if isNil, known := val.KnownIsNil(ir.ResultValue(ret, 0)); known && !isNil {
+							return false
+						}
+						differs := false
+						ir.Instrs(fn, func(y ssa.Instruction) {
+							bo, isBo := y.(*ssa.BinOp)
+							if !isBo || (bo.Op != token.NEQ && bo.Op != token.EQL) || (ir.LoadedField(bo.X) != r.recVersion && ir.LoadedField(bo.Y) != r.recVersion) {
+								return
+							}
+							if k, known := val.Known(bo); known && k == (bo.Op == token.NEQ) {
+								differs = true
+							}
+						})
+						return !differs
+					}}).Find()
+					okG = perr == nil && w == nil
+				}
 				c.Decide(w5, fn, "nil only when the stored version differs", ret, okG, "WaitForVersionChange returns nil on a path where the version was not seen to differ (invented change)")
 				// the compared record stems from a lookup of this critical section
 				okL := false
@@ -1164,6 +1188,28 @@ func (c *Ctx) inmemWaitRules(r *inmemRoles, w2, w3, w4, w5, w6 string) {
 						_, isSel := ex.Tuple.(*ssa.Select)
 						return isSel
 					})
+					if !okG {
+						// per path: a flag set in the ctx.Done() case and tested behind the select
+						w, perr := (ir.PathQuery{Fn: fn, Target: func(x ssa.Instruction, val *ir.Valuation) bool {
+							if x != ssa.Instruction(ret) {
+								return false
+							}
+							inDone := false
+							ir.Instrs(fn, func(y ssa.Instruction) {
+								sel, isSel := y.(*ssa.Select)
+								if !isSel {
+									return
+								}
+								if k, known := selectCaseOnPath(val, sel); known && k < len(sel.States) {
+									if dc, isCall := ir.Resolve(sel.States[k].Chan).(*ssa.Call); isCall && dc.Call.IsInvoke() && dc.Call.Method.Name() == "Done" {
+										inDone = true
+									}
+								}
+							})
+							return !inDone
+						}}).Find()
+						okG = perr == nil && w == nil
+					}
 					c.Decide(w5, fn, "ctx.Err() only in the ctx.Done() case", ret, okG, "the context's error is returned outside the ctx.Done() case")
 				}
 			}
@@ -1541,4 +1587,46 @@ func appendUniqFn(l []*ssa.Function, f *ssa.Function) []*ssa.Function {
 		}
 	}
 	return append(l, f)
+}
+
+// selectCaseOnPath: which case of sel the path took, from the comparisons of the select's index the path decided.
+func selectCaseOnPath(val *ir.Valuation, sel *ssa.Select) (int, bool) {
+	if sel.Referrers() == nil {
+		return 0, false
+	}
+	excluded := map[int64]bool{}
+	for _, ref := range *sel.Referrers() {
+		ex, ok := ref.(*ssa.Extract)
+		if !ok || ex.Index != 0 || ex.Referrers() == nil {
+			continue
+		}
+		for _, r2 := range *ex.Referrers() {
+			bo, isBo := r2.(*ssa.BinOp)
+			if !isBo || bo.Op != token.EQL {
+				continue
+			}
+			k, isC := ir.ConstInt(bo.Y)
+			if !isC {
+				continue
+			}
+			if truth, known := val.Known(bo); known {
+				if truth {
+					return int(k), true
+				}
+				excluded[k] = true
+			}
+		}
+	}
+	n := len(sel.States)
+	if !sel.Blocking {
+		return 0, false
+	}
+	if len(excluded) == n-1 {
+		for i := 0; i < n; i++ {
+			if !excluded[int64(i)] {
+				return i, true
+			}
+		}
+	}
+	return 0, false
 }
